@@ -46,6 +46,48 @@ fn name_opt(s: &str) -> Option<String> {
     }
 }
 
+/// What the `elf` crate (third-party, not modelled) says about a file, in the terms `from_binary` uses:
+///   P                          minimal_parse failed
+///   E<entry>;N                 no program headers
+///   E<entry>;S<type>,<flags>,<offset>,<vaddr>,<filesz>,<memsz>;…;(T|U)[;Y<value>,<undef>,<name hex | !>…]
+/// (T: a symbol table was found, U: none / error)
+pub fn elf_view(bytes: &[u8]) -> String {
+    use elf::endian::AnyEndian;
+    use elf::ElfBytes;
+    let file = match ElfBytes::<AnyEndian>::minimal_parse(bytes) {
+        Ok(f) => f,
+        Err(_) => return "P".into(),
+    };
+    let mut out = format!("E{:x}", file.ehdr.e_entry);
+    let segs = match file.segments() {
+        Some(s) => s,
+        None => return out + ";N",
+    };
+    for s in segs {
+        out.push_str(&format!(";S{:x},{:x},{:x},{:x},{:x},{:x}", s.p_type, s.p_flags, s.p_offset, s.p_vaddr, s.p_filesz, s.p_memsz));
+    }
+    match file.symbol_table() {
+        Ok(Some((symtab, strtab))) => {
+            out.push_str(";T");
+            for sym in symtab.iter() {
+                let name = match strtab.get(sym.st_name as usize) {
+                    Ok(n) => {
+                        if n.is_empty() {
+                            "-".to_string()
+                        } else {
+                            hex(n.as_bytes())
+                        }
+                    }
+                    Err(_) => "!".into(),
+                };
+                out.push_str(&format!(";Y{:x},{},{}", sym.st_value, if sym.is_undefined() { 1 } else { 0 }, name));
+            }
+        }
+        _ => out.push_str(";U"),
+    }
+    out
+}
+
 pub fn fnv64(b: &[u8]) -> u64 {
     let mut h: u64 = 0xcbf29ce484222325;
     for x in b {
@@ -81,10 +123,23 @@ impl Session {
         self.ax.as_mut().expect("no machine: missing `new`")
     }
 
-    fn do_new(&mut self, code: &[u8], start: u64, rip: u64) -> String {
+    /// `raw`: leave the constructor's random register values in place (C20 observes that they do not matter);
+    /// otherwise all general purpose and XMM registers are written with zero through the public API, which is what the
+    /// model starts from — so that a case stays meaningful when the shrinker drops its explicit register set-up.
+    fn do_new(&mut self, code: &[u8], start: u64, rip: u64, raw: bool) -> String {
         HOOK_LOG.with(|l| l.borrow_mut().clear());
         match Axecutor::new(code, start, rip) {
-            Ok(ax) => {
+            Ok(mut ax) => {
+                if !raw {
+                    for r in all_regs() {
+                        let name = format!("{:?}", r);
+                        if name.starts_with("XMM") {
+                            let _ = ax.reg_write_128(r, 0);
+                        } else if name != "RIP" && name != "EIP" && ax.reg_read_64(r).is_ok() {
+                            let _ = ax.reg_write_64(r, 0);
+                        }
+                    }
+                }
                 self.ax = Some(ax);
                 "ok".into()
             }
@@ -104,7 +159,13 @@ impl Session {
 
     fn dispatch(&mut self, ws: &[&str]) -> Option<String> {
         match ws {
-            ["new"] => Some(self.do_new(&[0x90], 0x1000, 0x1000)),
+            ["new"] => Some(self.do_new(&[0x90], 0x1000, 0x1000, false)),
+            ["newraw", code, start, rip] => {
+                let code = unhex(code)?;
+                let start = parse_hex(start)?;
+                let rip = parse_hex(rip)?;
+                Some(self.do_new(&code, start, rip, true))
+            }
             ["errtext", v] => {
                 ERRTEXT.store(*v == "on", std::sync::atomic::Ordering::Relaxed);
                 Some("-".into())
@@ -113,7 +174,7 @@ impl Session {
                 let code = unhex(code)?;
                 let start = parse_hex(start)?;
                 let rip = parse_hex(rip)?;
-                Some(self.do_new(&code, start, rip))
+                Some(self.do_new(&code, start, rip, false))
             }
             ["setregs", v] => {
                 let vals: Option<Vec<u64>> = v.split(',').map(parse_hex).collect();
@@ -266,6 +327,35 @@ impl Session {
                         .join(" "),
                 )
             }
+            ["elfload", file] => {
+                let bytes = unhex(file)?;
+                let view = elf_view(&bytes);
+                HOOK_LOG.with(|l| l.borrow_mut().clear());
+                let r = Axecutor::from_binary(&bytes);
+                Some(match r {
+                    Ok(ax) => {
+                        self.ax = Some(ax);
+                        format!("ok @view={}", view)
+                    }
+                    Err(e) => format!("{} @view={}", err_out(&e), view),
+                })
+            }
+            ["perm", a] => {
+                let a = parse_hex(a)?;
+                let v = self.ax().verif_areas();
+                Some(match v.iter().find(|ar| ar.start <= a && a - ar.start < ar.length) {
+                    Some(ar) => format!("{:x}", ar.access),
+                    None => "none".into(),
+                })
+            }
+            ["sym", a] => {
+                let a = parse_hex(a)?;
+                Some(match self.ax().resolve_symbol(a) {
+                    Some(n) => format!("some {}", hex(n.as_bytes())),
+                    None => "none".into(),
+                })
+            }
+            ["symcount"] => Some(format!("{:x}", self.ax().verif_symbols().len())),
             ["dec", ..] => Some("-".into()),
             ["nonative"] => Some("-".into()),
             ["step"] => {
